@@ -2,6 +2,7 @@ import PW.Proofs.Grid
 import PW.Proofs.SpecLemmas
 import PW.EinsumGen
 import PW.Proofs.TraceOut
+import PW.Proofs.MeasureOrder
 /-!
 # C04 — measurement outcomes follow the Born rule
 
@@ -36,6 +37,25 @@ theorem measure_plan_gives_born_probabilities (dims : List Nat) (p o : Nat) (hp 
 theorem measure_matrix_is_trace_out (n : Nat) (meas : List Nat) : measureMatrix n meas = traceOutMatrix n meas := rfl
 theorem measure_vector_is_trace_out (n : Nat) (meas : List Nat) : measureVector n meas = traceOutVector n meas := rfl
 
+/-- **the Born weights of a subsystem add up to the trace**: for a unit-trace state the vector handed
+to the sampler is a probability distribution (every `n`, every dimension list, every position) -/
+theorem born_weights_sum_to_trace (dims : List Nat) (p : Nat) (hp : p < dims.length) (ρ : Tensor R) :
+    ((List.range (dims.getD p 0)).map fun o => prob dims p ρ o).sum = trace dims ρ :=
+  prob_sum_eq_trace dims p hp ρ
+
+/-- chain rule: the weight of "p₁ gave o₁, then p₂ gave o₂" is the joint diagonal weight of (o₁, o₂) -/
+theorem sequential_weight_is_joint_weight (dims : List Nat) (p₁ p₂ o₁ o₂ : Nat) (h1 : p₁ < dims.length)
+    (h2 : p₂ < dims.length) (hne : p₁ ≠ p₂) (ho₁ : o₁ < dims.getD p₁ 0) (ρ : Tensor R) :
+    prob dims p₂ (projectOn dims p₁ o₁ ρ) o₂ = jointWeight dims p₁ p₂ o₁ o₂ ρ :=
+  prob_after_projectOn dims p₁ p₂ o₁ o₂ h1 h2 hne ho₁ ρ
+
+/-- **the order in which several subsystems are measured does not change the joint distribution**
+(the implementation is free to choose it; the harness accepts any order) -/
+theorem measurement_order_does_not_matter (dims : List Nat) (p₁ p₂ o₁ o₂ : Nat) (h1 : p₁ < dims.length)
+    (h2 : p₂ < dims.length) (hne : p₁ ≠ p₂) (ho₁ : o₁ < dims.getD p₁ 0) (ho₂ : o₂ < dims.getD p₂ 0) (ρ : Tensor R) :
+    prob dims p₂ (projectOn dims p₁ o₁ ρ) o₂ = prob dims p₁ (projectOn dims p₂ o₂ ρ) o₁ :=
+  measurement_order_irrelevant dims p₁ p₂ o₁ o₂ h1 h2 hne ho₁ ho₂ ρ
+
 /-- non-vacuity: a two-outcome subsystem with weight on both outcomes -/
 example : prob [2] 0 (fun idx => if idx = [0, 0] ∨ idx = [1, 1] then (1 : Int) else 0) 1 = 1 := by decide
 
@@ -46,3 +66,6 @@ end PW.Props.C04
 #print axioms PW.Props.C04.measure_plan_gives_born_probabilities
 #print axioms PW.Props.C04.measure_matrix_is_trace_out
 #print axioms PW.Props.C04.measure_vector_is_trace_out
+#print axioms PW.Props.C04.born_weights_sum_to_trace
+#print axioms PW.Props.C04.sequential_weight_is_joint_weight
+#print axioms PW.Props.C04.measurement_order_does_not_matter
